@@ -388,6 +388,15 @@ pub proof fn lemma_alloc(o: Lg, n: Lg, id: InodeId, h: Option<FileHandle>, num: 
         }
     }
 }
+// ---- the state import() builds (the root under number 1, next_inode = 2, an empty prefix table with next_unique_id = 1) satisfies it
+pub proof fn lemma_import(lg: Lg, d: Arc<InodeData>)
+    requires d.inode == 1, lg.store.data@ == Map::<Inode, Arc<InodeData>>::empty().insert(1, d), lg.store.by_id@ == Map::<InodeId, Inode>::empty().insert(d.id, 1),
+             d.handle is Handle ==> lg.store.by_handle@ == Map::<Arc<FileHandle>, Inode>::empty().insert(d.handle->Handle_0.handle, 1),
+             !(d.handle is Handle) ==> lg.store.by_handle@ == Map::<Arc<FileHandle>, Inode>::empty(),
+             lg.k_next != lg.k_virt, lg.c64.contains_key(lg.k_next), lg.c64.contains_key(lg.k_virt), lg.c8.contains_key(lg.k_uid),
+             lg.c64[lg.k_next] == 2, lg.c8[lg.k_uid] == 1, lg.devmap == Map::<DevMntIDPair, u8>::empty(),
+    ensures inv(lg),                                                                      // [C08.inv.initial]
+{ }
 // ---- inserting the new inode keeps the invariant
 pub proof fn lemma_insert(o: Lg, n: Lg, d: Arc<InodeData>, h: Option<FileHandle>)
     requires inv(o), o.store.alt(d.id, h) is None, n.same_alloc(o),
@@ -725,7 +734,7 @@ def unit(root='/repo'):
             Fn(PT, IMPL, 'to_openable_handle', external_body=True, props=['C08'],
                ensures=['r is Ok ==> r->Ok_0.handle == hkey(fh)']),
             Fn(PT, IMPL, 'open_file_and_handle', props=['C08'],
-               requires=['open_allowed(dir.sfd(), name@)'],
+               requires=['open_allowed(dir.sfd(), name@) // [open]'],
                ensures=['r is Ok ==> ({ let fd = host_open(dir.sfd(), name@); r->Ok_0.0.sfd() == fd && r->Ok_0.2 == host_statx(fd) '
                         '&& r->Ok_0.1 == (if self.cfg.inode_file_handles { host_fh(fd) } else { None::<FileHandle> }) }) // [C08.lookup.opened]']),
             tok(Fn(PT, IMPL, 'allocate_inode', props=['C08'], canary=True,
